@@ -93,6 +93,22 @@ def build_stream(spec):
                 continue          # map-updating records only as the NONE-qualified records the kernel emits
             keep.append(e)
         progs.append(keep)
+    # a new-thread record may declare a thread that is itself logging (another program's thread), and its name
+    # record may be missing from the dump
+    n, occ = len(progs), 0
+    for i, p in enumerate(progs):
+        out = []
+        for e in p:
+            if e[1] == 'TRACE_DATA_NEWTHREAD' and e[2] == 0:
+                occ += 1
+                if spec.get('retarget', 0) >> (occ % 8) & 1:
+                    a = [int.from_bytes(e[3][8 * k:8 * k + 8], 'little') for k in range(4)]
+                    a[0] = SC.PROGRAM_TIDS[(i + 1 + occ) % max(n, 1)]
+                    e = [e[0], e[1], e[2], b''.join(x.to_bytes(8, 'little') for x in a)]
+            if e[1] == 'TRACE_STRING_NEWTHREAD' and spec.get('drop_names', 0) >> (occ % 8) & 1:
+                continue
+            out.append(e)
+        progs[i] = out
     evs = SC.merge(progs, spec['schedule'])
     tm = []
     for i in range(len(progs)):
@@ -209,6 +225,17 @@ def prop_v2(ctx, case):
         raise Violation('colour-changes-text:traces', f'line {k}: coloured {colour[k]!r} vs plain {plain[k]!r}' if k >= 0 else 'different number of lines')
     if colour and not any('\x1b[' in x for x in colour):
         ctx.notes.append('colour produced no escape sequences (FORCE_COLOR not effective?)')
+    # ---- one parser object, two dumps: the second dump (same events, NO thread map) must read as on a fresh object
+    recs2 = [kmodel.ev_record((1001 + 7 * k, tid, (EV.eid(code) & ~3) | q, data)) for k, (tid, code, q, data) in enumerate(evs)]
+    blob2 = kmodel.v2_file([], 0, recs2)
+    reused = parser_with(cfg_on)
+    guard(lambda: sum(1 for _ in reused.formatted_traces(BudgetReader(blob))))
+    second = guard(lambda: list(reused.formatted_traces(BudgetReader(blob2))))
+    alone = guard(listing, 'traces', blob2, cfg_on)
+    if second != alone:
+        k = next((i for i in range(min(len(second), len(alone))) if second[i] != alone[i]), 0)
+        raise Violation('attribution-leaks-between-dumps', f'a dump without thread map, formatted after another dump on the same object: line {k} '
+                                                           f'{second[k:k + 1]} instead of {alone[k:k + 1]}')
     # ---- callstacks
     cbody, csegs = check_composition('callstacks', blob, cfgs)
     for k in range(len(cbody)):
@@ -304,7 +331,7 @@ def run(ctx):
     op = st.one_of(SC.op_strategy(), SC.op_strategy(), map_ops)
     programs = st.lists(st.lists(op, min_size=2, max_size=6), min_size=1, max_size=3)
     spec = st.fixed_dictionaries({'programs': programs, 'schedule': st.lists(st.integers(0, 2), max_size=50),
-                                  'map_mask': st.sampled_from([7, 7, 3, 5, 6, 1, 0]),
+                                  'map_mask': st.sampled_from([7, 7, 3, 5, 6, 1, 0]), 'retarget': st.integers(0, 255), 'drop_names': st.sampled_from([0, 0, 0x55, 0xff, 2]),
                                   'extra_map': st.lists(st.tuples(st.integers(0, 3), st.sampled_from([100, 200, 777, 0]), nm).map(list), max_size=3)})
     v2 = st.fixed_dictionaries({'spec': spec, 'configs': configs(), 'all64': st.just(not ctx.quick)})
     ctx.run_given('v2', v2, prop_v2, ctx.n(120, 200))
